@@ -91,10 +91,11 @@ package jpeg
 //@   requires [C10 C06 C07] sigBEat(r, pos(r)) ==> h.ByteOrder == utils.BigEndian && h.FirstIfdOffset == be32At(r, pos(r) + 4)
 //@   requires [C10] !isSigAt(r, pos(r)) ==> h.ByteOrder == utils.UnknownEndian
 //@   modifies stream(r), foreign(jpeg)
-//@   ensures pos(r) >= old(pos(r))
+//@   bindensures pos(r) >= old(pos(r))
 // C10 grants this about the Exif callback ("provided the Exif callback consumes its declared length"); where the library
-// binds its own reader (imagemeta.DecodeJPEG: ir.DecodeJPEGIfd) the clause is a refinement obligation on that method.
-//@   ensures [C10] err == nil ==> pos(r) == old(pos(r)) + int(h.ExifLength)
+// binds its own reader (imagemeta.DecodeJPEG: ir.DecodeJPEGIfd) the clause is a refinement obligation on that method
+// (`bindensures`: assumed where the callback is called, proved of a method bound to the slot).
+//@   bindensures [C10] err == nil ==> pos(r) == old(pos(r)) + int(h.ExifLength)
 // the reader handed over is the scanner's own buffered reader
 //@   requires [C10] is(r, "*bufio.Reader")
 // the refinement by the library's reader is checked for non-empty payloads (an Exif APP1 segment of length 8 has no TIFF header;
